@@ -781,6 +781,15 @@ func (c *codecTr) plainCalls(name string, wanted map[string]bool) []pcall {
 	loc := writerLocals(fd)
 	var calls []pcall
 	ast.Inspect(fd.Body, func(n ast.Node) bool {
+		// loop bounds: how many items are printed / scanned
+		switch l := n.(type) {
+		case *ast.ForStmt:
+			if l.Cond != nil {
+				calls = append(calls, pcall{short, "for", expr(l.Cond), nil})
+			}
+		case *ast.RangeStmt:
+			calls = append(calls, pcall{short, "range", expr(l.X), nil})
+		}
 		call, ok := n.(*ast.CallExpr)
 		if !ok {
 			return true
